@@ -145,6 +145,14 @@ def run_table(ctx, config, body):
     else:
         want = z3.BoolVal(False)
         ctx.cover('no-usable-default')
+    if env is None and bool(ctx.bool('other_enforcer_takes_the_store')):
+        # a second enforcer with a permissive default of its own is handed
+        # this enforcer's LIVE rule store: what that one does with it is
+        # none of the first enforcer's business
+        other = common.mk_enforcer(default_rule=_parser.parse_rule('@'),
+                                   conf=common.new_conf())
+        other.set_rules(enf.rules)
+        other.enforce('zzz', {}, {})
     try:
         _table_checks(ctx, enf, q, want, config, body, via, rules)
     finally:
